@@ -877,13 +877,22 @@ func runC13(r *Run, verifDir string) {
 				nCtor++
 				key := fnKey(fn) + "/init-version"
 				src := ""
-				if u, ok := st.Val.(*ssa.UnOp); ok {
-					if _, f2, ok := fieldAddrOf(u.X); ok {
-						src = f2.Name()
+				// through a constructor helper: what its callers pass for the version
+				for _, val := range paramSources(p, st.Val, 0) {
+					one := ""
+					if u, ok := val.(*ssa.UnOp); ok {
+						if _, f2, ok := fieldAddrOf(u.X); ok {
+							one = f2.Name()
+						}
 					}
-				}
-				if al, ok := st.Val.(*ssa.Alloc); ok {
-					src = "copy:" + al.Comment
+					if al, ok := val.(*ssa.Alloc); ok {
+						one = "copy:" + al.Comment
+					}
+					if one != "enforceVersion" && !strings.HasPrefix(one, "copy:") {
+						src = one
+						break
+					}
+					src = one
 				}
 				if src == "enforceVersion" || strings.HasPrefix(src, "copy:") {
 					r.OK("C13.N4", key, st.Pos(), "version initialised from %s", src)
